@@ -543,6 +543,7 @@ package transport
 //@   ensures [C18:closed-transport-hands-out-nothing] old(t.closed) ==> err == ErrClosedTransport && c == nil && nGo == 0
 //@   ensures err == nil ==> c != nil
 //@   ensures [C18:one-dial-at-a-time] nGo == ((!old(t.closed) && old(t.dialingCall) == nil && (old(t.c) == nil || t.c == nil)) ? 1 : 0) && !held
+//@   callsite Unlock: [C18:lock-released-only-with-a-connection-or-a-registered-dial] t.closed || t.c != nil || t.dialingCall != nil
 //@   callsite go: [C18:dial-registered-before-it-starts] !held && t.dialingCall != nil && t.dialingCall.done != nil && t.dialingCall.c == nil && t.dialingCall.err == nil
 
 // exchangeStream: the goroutine that writes the query and reads the reply reports through its own channel only;
